@@ -399,6 +399,21 @@ impl<'tcx> Cx<'tcx> {
                         }
                     }
                 }
+                if let ConstValue::Scalar(mir::interpret::Scalar::Ptr(ptr, _)) = cv {
+                    let (prov, _off) = ptr.into_raw_parts();
+                    if let rustc_middle::mir::interpret::GlobalAlloc::Memory(a) = tcx.global_alloc(prov.alloc_id()) {
+                        let a = a.inner();
+                        let n = a.len();
+                        if n <= 512 && a.provenance().ptrs().is_empty() {
+                            let bytes = a.inspect_with_uninit_and_ptr_outside_interpreter(0..n);
+                            return J::obj(vec![
+                                ("c", J::s("bytes")),
+                                ("via", J::s("alloc")),
+                                ("v", J::A(bytes.iter().map(|b| J::U(*b as u128)).collect())),
+                            ]);
+                        }
+                    }
+                }
                 if let ConstValue::ZeroSized = cv {
                     return J::obj(vec![("c", J::s("zst")), ("ty", J::S(ty_str(ty)))]);
                 }
